@@ -56,6 +56,14 @@ func (s *Subscription[T]) Close() {
 		return // already closed
 	}
 
+	// A Publish can be blocked sending to our channel while holding the topic
+	// lock that unsubscribeID needs. Keep receiving (and discarding) until the
+	// channel is closed by unsubscribeID, so that neither side can wedge.
+	go func(ch <-chan T) {
+		for range ch {
+		}
+	}(s.ch)
+
 	s.topic.unsubscribeID(s.id)
 	s.ch = nil
 	s.topic = nil
